@@ -438,7 +438,6 @@ fn run_manager(c: &AsyncCase, is_async: bool) -> Result<Outcome, Failure> {
     let mut count_since_open = 0u64;
     let mut explicit_rotations = 0u64;
     let mut hi_seen = 0u64;
-    let mut last_epoch: Option<u64>;
     let mut bg_running = false;
     let mut out = Outcome { recovered: Vec::new(), files_max: 0, retired: false };
     let mut steps = c.steps.clone();
@@ -470,7 +469,7 @@ fn run_manager(c: &AsyncCase, is_async: bool) -> Result<Outcome, Failure> {
                 raw.push(item_of(&WalRecord::Checkpoint { tx_id: TxId::new(tx) }));
                 count_since_open += 1;
                 werr(sig, "sync", guard("sync", || w.sync(&rt)))?;
-                last_epoch = Some(u64::from(*epoch));
+                let last_epoch = Some(u64::from(*epoch));
                 if *epoch > 0 {
                     may_retire = true;
                     // everything in front of the checkpoint record is dispensable from here on
